@@ -1,1 +1,7 @@
-//! ntpd facade fragment "observe": re-exports / wrappers (and per-run thread-local seams) for the world that owns it.
+//! ntpd facade fragment "observe" (owned by world w5/C38): re-exports of the
+//! observation-socket framing and of the published state types, which live in
+//! modules that are private to the `ntpd` crate. No behaviour of its own.
+
+pub use super::super::observer::{ObservableServerState, ObservableState, ProgramData};
+pub use super::super::server::{Counter, ServerStats};
+pub use super::super::sockets::{read_json, write_json};
